@@ -1,8 +1,9 @@
 #!/usr/bin/env python3
-"""mk_seed_table -- regenerate DESIGN.md section 12.8's table from .build/selftest_results.json (written by tools/selftest.py)."""
+"""mk_seed_table -- regenerate DESIGN.md section 12.8's table from .build/selftest_results_merged.json (the latest verdict of every case, kept by tools/selftest.py over partial runs)."""
 import json, os, re
 V = os.path.dirname(os.path.dirname(os.path.abspath(__file__)))
-res = json.load(open(os.path.join(V, '.build', 'selftest_results.json')))
+_m = os.path.join(V, '.build', 'selftest_results_merged.json')
+res = json.load(open(_m if os.path.exists(_m) else os.path.join(V, '.build', 'selftest_results.json')))
 def key(c):
     m = re.match(r'(seeded|selftest)/(C\d+)-(\d+)$', c)
     return (0, m.group(2), int(m.group(3))) if m else (1, c, 0)
